@@ -250,7 +250,8 @@ class InformationWeightTransformer(BaseEstimator, TransformerMixin):
             unsupervised_power = (1.0 - self.supervision_weight) * self.weight_power
             supervised_power = self.supervision_weight * self.weight_power
 
-            self.information_weights_ /= np.mean(self.information_weights_)
+            if np.mean(self.information_weights_) > 0:
+                self.information_weights_ /= np.mean(self.information_weights_)
             self.information_weights_ = np.maximum(self.information_weights_, 0.0)
             self.information_weights_ = np.power(
                 self.information_weights_, unsupervised_power
@@ -266,7 +267,8 @@ class InformationWeightTransformer(BaseEstimator, TransformerMixin):
             self.supervised_weights_ = information_weight(
                 X, self.prior_strength, self.approx_prior, target=target
             )
-            self.supervised_weights_ /= np.mean(self.supervised_weights_)
+            if np.mean(self.supervised_weights_) > 0:
+                self.supervised_weights_ /= np.mean(self.supervised_weights_)
             self.supervised_weights_ = np.maximum(self.supervised_weights_, 0.0)
             self.supervised_weights_ = np.power(
                 self.supervised_weights_, supervised_power
@@ -276,7 +278,8 @@ class InformationWeightTransformer(BaseEstimator, TransformerMixin):
                 self.information_weights_ * self.supervised_weights_
             )
         else:
-            self.information_weights_ /= np.mean(self.information_weights_)
+            if np.mean(self.information_weights_) > 0:
+                self.information_weights_ /= np.mean(self.information_weights_)
             self.information_weights_ = np.maximum(self.information_weights_, 0.0)
             self.information_weights_ = np.power(
                 self.information_weights_, self.weight_power
